@@ -185,6 +185,10 @@ def dict_props_to_arr(
         # try casting the list of values to a numpy array
         try:
             values_arr = np.asarray(values)
+            if values_arr.dtype.kind == "u":
+                # Python ints >= 2**63 are discovered as C "unsigned long long", which is not
+                # the canonical uint64 on every platform and is not recognised by zarr
+                values_arr = values_arr.astype(np.uint64)
         # catch a value error which will happen if we have elements that are different shapes
         except ValueError:
             # try to construct variable length properties - will raise an error if internal
